@@ -17,6 +17,7 @@ import (
 	"os/exec"
 	"path/filepath"
 	"regexp"
+	"runtime/debug"
 	"sort"
 	"strconv"
 	"strings"
@@ -619,6 +620,9 @@ func neoCompile(dir string, p *Prog) (*compiled, error) {
 		defer func() {
 			if r := recover(); r != nil {
 				err = fmt.Errorf("compiler panic: %v", r)
+				if os.Getenv("C14_DEBUG") != "" {
+					fmt.Printf("DEBUG compiler panic: %v\n%s\n", r, debug.Stack())
+				}
 			}
 		}()
 		var f *nef.File
@@ -710,7 +714,10 @@ func (c *compiled) metaCheck(f *Fn) string {
 	if int(m.Range.Start) >= len(c.script) || int(m.Range.End) >= len(c.script) || m.Range.End < m.Range.Start {
 		return fmt.Sprintf("debug info range %d..%d outside script of %d bytes", m.Range.Start, m.Range.End, len(c.script))
 	}
-	mname := strings.ToLower(f.Name[:1]) + f.Name[1:]
+	mname := lowerFirst(f.Name)
+	if m.Name.Name != mname {
+		return fmt.Sprintf("debug info names %s %q, want %q", f.Name, m.Name.Name, mname)
+	}
 	mm := c.mf.ABI.GetMethod(mname, len(f.Params))
 	if mm == nil {
 		return fmt.Sprintf("manifest has no method %s/%d", mname, len(f.Params))
@@ -767,7 +774,11 @@ func (c *compiled) vmCall(f *Fn, tuple []string) (outcome string, diag string) {
 	v := vm.New()
 	v.SetGasLimit(gasLimit)
 	v.LoadScriptWithFlags(c.script, callflag.NoneFlag)
-	v.Context().Jump(int(m.Range.Start))
+	start := int(m.Range.Start)
+	if mm := c.mf.ABI.GetMethod(lowerFirst(f.Name), len(f.Params)); mm != nil && mm.Offset >= 0 && mm.Offset < len(c.script) {
+		start = mm.Offset // what a caller of the deployed contract enters (metaCheck demands that both offsets agree)
+	}
+	v.Context().Jump(start)
 	dep := c.byID[manifest.MethodDeploy]
 	if dep != nil {
 		atomic.AddInt64(&fstats.chains, 1)
